@@ -43,7 +43,10 @@ func (p *Parser) Encode(header *parser.PacketHeader, v any) ([][]byte, error) {
 		return nil, fmt.Errorf("parser/json: invalid argument: %w", errNilArgument)
 	}
 
-	if header.Type == parser.PacketTypeEvent || header.Type == parser.PacketTypeAck {
+	// A header that has been encoded before already carries the binary type (a logged packet that is
+	// replayed to a recovered session, for example): its values are deconstructed again all the same.
+	if header.Type == parser.PacketTypeEvent || header.Type == parser.PacketTypeAck ||
+		header.Type == parser.PacketTypeBinaryEvent || header.Type == parser.PacketTypeBinaryAck {
 		if hasBinary(rv) {
 			switch header.Type {
 			case parser.PacketTypeEvent:
@@ -108,7 +111,11 @@ func (p *Parser) encodeString(header *parser.PacketHeader, v any) ([]byte, error
 
 func (p *Parser) encodeBinary(header *parser.PacketHeader, v any) (buffers [][]byte, err error) {
 	numBuffers := 0
-	buffers, err = p.deconstructPacket(reflect.ValueOf(v), &numBuffers)
+	// Deconstruction puts placeholders into the caller's values. They are needed until
+	// the JSON is made; then the binary data is put back, whatever the outcome.
+	var undo undoLog
+	defer func() { undo.run() }()
+	buffers, err = p.deconstructPacket(reflect.ValueOf(v), &numBuffers, &undo)
 	if err != nil {
 		return nil, err
 	}
